@@ -77,6 +77,10 @@ class InitMethod(MethodDescriptor):
                             continue
                         if not instance_attr_spec.init:
                             continue  # not a constructor argument of the parent
+                        if attr == instance_metadata.init_overflow_attr:
+                            # A keyword of that name is an overflow keyword like
+                            # any other (collected below), not the parent's.
+                            continue
                         if kwargs.get(attr, MISSING) is not MISSING:
                             parent_kwargs[attr] = kwargs.pop(attr)
                             # Parent constructors do not copy incoming values (see
